@@ -70,6 +70,11 @@ static int vp_x_build(struct hwloc_topology *t)
   s->pkg[0] = vp_ins(t, HWLOC_OBJ_PACKAGE, 0, 0x03, 0); s->pkg[1] = vp_ins(t, HWLOC_OBJ_PACKAGE, 1, 0x24, 0);
   s->numa[0] = vp_ins(t, HWLOC_OBJ_NUMANODE, 0, 0x03, 0x1); s->numa[1] = vp_ins(t, HWLOC_OBJ_NUMANODE, 1, 0x24, 0x2);
   fx_pkg0 = s->pkg[0]; fx_pu3 = s->pu[3]; fx_numa0 = s->numa[0];
+#ifdef FIXD
+  /* PU#1 is disallowed (and the topology is loaded without INCLUDE_DISALLOWED): it disappears from the tree and from the cpusets
+   * but stays in the complete_ cpusets: each of the set attributes of the document then has its own value */
+  hwloc_bitmap_clr(t->allowed_cpuset, 1);
+#endif
   /* the discovery support bits that any backend reports and that the XML backend sets on import */
   t->support.discovery->pu = t->support.discovery->disallowed_pu = t->support.discovery->numa = t->support.discovery->numa_memory = t->support.discovery->disallowed_numa = 1;
 #if FIX >= 1
@@ -298,6 +303,8 @@ VP_HARNESS(h_xml_roundtrip)
   cmp_topology(A, B, v2);
 #if FIX >= 1
   VP_CHECK(cmp_count == 9 + ((FIXM & 1) != 0) + ((FIXM & 2) != 0) + ((FIXM & 4) != 0) + 3 * ((FIXM & 32) != 0) + ((FIXM & 64) != 0), "all objects compared");
+#elif defined(FIXD)
+  VP_CHECK(cmp_count == 8 && vp_w(A->levels[0][0]->cpuset) == 0x25 && vp_w(A->levels[0][0]->complete_cpuset) == 0x27 && vp_w(B->levels[0][0]->complete_cpuset) == 0x27, "all 8 objects compared; the complete cpuset keeps the disallowed PU");
 #else
   VP_CHECK(cmp_count == 9, "all 9 objects compared");
 #endif
